@@ -20,12 +20,9 @@ ID = "C13"
 LEVEL = "model_checking"
 MIN_OUTCOMES = 3
 MANIFEST = {
-    "text": "Complete enumeration of a constructed project table x flag sets x message templates: the two-step history (update --dry; "
-    "update) is executed on the real CLI from the same snapshot; the dry run must not change a byte, and whenever it exits 0 the unified "
-    "diff it printed - applied by a strict applier that checks file names, line numbers, counts and every context/removed line under the "
-    "file's own separator - must reproduce exactly the bytes the real run writes, and the real run must exit 0.",
-    "note": "mixed line endings are excluded by the property; coloured tty output is not exercised",
-    "technique": "exhaustive enumeration of bounded project x argument space, differential oracle (strict diff applier vs real run) on the real CLI",
+    'text': "Complete enumeration of a constructed project table (incl. files that lag behind current_version) x flag sets x message templates, plus fake-git cases in which a fetch brings newer tags: the two-step history (update --dry; update) is executed on the real CLI from the same snapshot; the dry run must not change a byte, and whenever it exits 0 the unified diff it printed - applied by a strict applier that checks file names, line numbers, counts and every context/removed line under the file's own separator - must reproduce exactly the bytes the real run writes, and the real run must exit 0.",
+    'note': 'mixed line endings are excluded by the property; coloured tty output is not exercised',
+    'technique': 'exhaustive enumeration of bounded project x argument space, differential oracle (strict diff applier vs real run) on the real CLI',
 }
 RULE = (
     "one evaluation = one CLI run; a case = (project, flag set, template) run as --dry then real from one snapshot; distinct "
